@@ -26,6 +26,7 @@ func init() {
 				c.flagDefaults(map[string]flagSpec{"in-place": {"false", "extractOptions.inPlace", 1}})
 			}},
 			{"C08.destination-uses", "in extract the destination name reaches only the seed readers and the two assembly paths", 4, c08DestinationUses},
+			{"C08.commands-propagate", "an interrupted or failed assembly makes the extract helpers fail, so the temp file is never renamed into place (shared with C07)", 15, c07CommandsPropagate},
 			{"C08.resume", "in-place re-run keeps only ranges that hash to their chunk id", 3, c01WriteChunk},
 		},
 	})
